@@ -178,6 +178,15 @@ Proof.
     exists v. split; [assumption|]. apply oz_eqb_eq. assumption.
 Qed.
 
+Theorem kcore_list_cert_sound_l : forall g c k l, kcore_list_cert g c k l = true ->
+  NoDup l /\ forall v, In v l <-> In v (nodes g) /\ exists x, lookup c v = Some x /\ k <= x.
+Proof.
+  intros g c k l H. unfold kcore_list_cert in H. split_and H H0. split; [apply nodupb_NoDup; assumption|].
+  intro v. rewrite (same_set_iff _ _ H0 v). rewrite filter_In. split.
+  - intros [Hv Hk]. split; [assumption|]. destruct (lookup c v) as [x|]; [|discriminate]. exists x. split; [reflexivity|]. apply Z.leb_le. assumption.
+  - intros [Hv [x [Hx Hk]]]. split; [assumption|]. rewrite Hx. apply Z.leb_le. assumption.
+Qed.
+
 (** * bridges *)
 Lemma without_pair_sym : forall E a b, without_pair E a b = without_pair E b a.
 Proof. intros E a b. unfold without_pair. apply filter_ext. intro e. rewrite orb_comm. reflexivity. Qed.
